@@ -215,6 +215,7 @@ type builtNetwork struct {
 	agents []*agent
 	ports  map[string]messaging.Port
 	reg    *collectReg
+	stop   func() bool // a recorder may end a runaway run (far more deliveries than messages)
 }
 
 // collectReg remembers every component and port the connectors register.
@@ -362,11 +363,14 @@ func buildNetwork(ns NetSpec, visTracer tracing.Tracer) *builtNetwork {
 type errBound struct{}
 
 // boundHook stops a run whose events go past the bound (a livelock would otherwise never return).
-type boundHook struct{ limit timing.VTimeInPicoSec }
+type boundHook struct {
+	limit timing.VTimeInPicoSec
+	stop  func() bool // optional: the observer has seen enough (runaway run)
+}
 
 func (h *boundHook) Func(ctx hooking.HookCtx) {
 	if ctx.Pos == timing.HookPosBeforeEvent {
-		if evt, ok := ctx.Item.(timing.Event); ok && evt.Time() > h.limit {
+		if evt, ok := ctx.Item.(timing.Event); ok && (evt.Time() > h.limit || (h.stop != nil && h.stop())) {
 			panic(errBound{})
 		}
 	}
@@ -394,7 +398,7 @@ func (bn *builtNetwork) run() (quiescent bool) {
 	if limit == 0 {
 		limit = 4_000_000_000_000
 	}
-	bn.eng.AcceptHook(&boundHook{limit: limit})
+	bn.eng.AcceptHook(&boundHook{limit: limit, stop: bn.stop})
 	for _, a := range bn.agents {
 		a.TickLater()
 	}
@@ -417,6 +421,8 @@ func runNet(ns NetSpec, w *bufio.Writer, ic *intConfig) (info map[string]any, sa
 	for _, n := range names {
 		bn.ports[n].AcceptHook(rec)
 	}
+	// a network that delivers many times more than was sent will not come to rest: stop recording it, report it as not quiescent
+	bn.stop = func() bool { return rec.recvs > 3*len(ns.Msgs)+200 }
 	var obs *netInt
 	intLine := 0
 	if ic != nil {
